@@ -122,7 +122,7 @@ func rulePanic(c *Ctx, prefix string, fns []*ssa.Function, pred map[*ssa.Functio
 				seenSite[h.in] = true
 				ord[what]++
 			}
-			key := fmt.Sprintf("%s %s", shortFn(fn), what)
+			key := fmt.Sprintf("%s %s#%d", shortFn(fn), what, siteOrdinal(fn, h.in))
 			// find discriminating guard facts
 			ok, why := dischargePanic(c, fn, h.st, ro)
 			o := &Obl{Rule: rule, Key: key + " " + guardDesc(h.st), Pos: c.P.InstrPos(h.in), Fn: shortFn(fn), Fixture: isFixture(fn)}
@@ -689,4 +689,20 @@ func ruleLockOrder(c *Ctx, prefix string) {
 			c.R.ok(rule, "mutex "+a, "-", "-", fmt.Sprintf("no cycle; acquired-while-held successors: %v", outs))
 		}
 	}
+}
+
+// siteOrdinal: position of the panic site among the function's panic sites.
+func siteOrdinal(fn *ssa.Function, at ssa.Instruction) int {
+	n := 0
+	for _, b := range fn.Blocks {
+		for _, in := range b.Instrs {
+			if _, ok := panicSite(in); ok {
+				n++
+				if in == at {
+					return n
+				}
+			}
+		}
+	}
+	return 0
 }
